@@ -50,6 +50,9 @@ def run(ctx):
                 "a range covering it was present during the whole call" if not e["res"] else "no range covering it was present at any time during the call",
                 k, sum(1 for x in c["evs"][:k] if x["k"] == "wb")))
             sig = kind + (" after updates stopped" if e["p"] == 50 else " during churn")
+        elif e["k"] == "crash":
+            what = "a writer goroutine crashed inside the filter: %s (event %d)" % (e.get("op"), k)
+            sig = "crash"
         else:
             what = "%s(%s/%d) returned an error" % (e.get("op"), bits_ip(e["c"]), len(e["c"]))
             sig = "update rejected"
